@@ -525,6 +525,12 @@ class ModelMixin:
         if isinstance(recv, str) and all(isinstance(a, (str, int)) for a in args) and name in (
                 'replace', 'upper', 'lower', 'startswith', 'endswith', 'format', 'strip', 'split'):
             return [ok(getattr(recv, name)(*args), st)]
+        if name == 'replace' and is_sym(recv) and z3.is_string(recv) and all(isinstance(a, str) for a in args) and len(args) == 2:
+            # z3 str.replace replaces the first occurrence; equal to Python's replace-all when the
+            # pattern occurs at most once -- obligation
+            first = z3.Replace(recv, z3.StringVal(args[0]), z3.StringVal(args[1]))
+            self.oblige(st, f'safety.replace_single_occurrence@{line}', z3.Not(z3.Contains(first, z3.StringVal(args[0]))), kind='safety', line=line)
+            return [ok(first, st)]
         if name in ('format', 'join', 'upper', 'lower', 'replace', 'strip'):
             return [ok(Opaque(fresh_name('str'), kind='str'), st)]
         raise EngineError(f'str.{name}')
@@ -960,6 +966,62 @@ class ModelMixin:
         if isinstance(cm, Opaque):
             return self.call_external(cm, '__exit__', [], {}, st, line)
         raise EngineError('with exit')
+
+    # io.BytesIO over a byte view
+    def bi_io_BytesIO(self, args, kwargs, st, line):
+        data = args[0] if args else b''
+        if data == b'':
+            data = BytesV(fresh_name('empty'), 0, 0)
+        if not isinstance(data, BytesV):
+            raise EngineError('BytesIO of non-view bytes')
+        return [ok(st.alloc(HObj('bytesio', meta={'data': data, 'pos': 0, 'closed': False})), st)]
+
+    def m_bytesio_tell(self, recv, h, args, kwargs, st, line):
+        return [ok(h.meta['pos'], st)]
+
+    def m_bytesio_seek(self, recv, h, args, kwargs, st, line):
+        where = args[0]
+        whence = args[1] if len(args) > 1 else kwargs.get('whence', 0)
+        n = h.meta['data'].hi - h.meta['data'].lo
+        if whence == 0:
+            new = where
+        elif whence == 1:
+            new = h.meta['pos'] + where
+        elif whence == 2:
+            new = n + where
+        else:
+            raise EngineError('seek whence')
+        new = zmax(new, 0)
+        h.meta['pos'] = new
+        return [ok(new, st)]
+
+    def m_bytesio_read(self, recv, h, args, kwargs, st, line):
+        d = h.meta['data']
+        n = to_int_term(d.hi) - to_int_term(d.lo)
+        pos = to_int_term(h.meta['pos'])
+        amount = args[0] if args else None
+        if isinstance(amount, Opt):
+            out = []
+            for isnone, s2 in self.branch(st, amount.is_none):
+                out.extend(self.m_bytesio_read(recv, s2.obj(recv), [None if isnone else amount.val], kwargs, s2, line))
+            return out
+        start = z3.If(pos > n, n, pos)
+        if amount is None:
+            end = n
+        else:
+            a = to_int_term(amount)
+            end = z3.If(a < 0, n, z3.If(start + a > n, n, start + a))
+        h.meta['pos'] = z3.simplify(z3.If(pos > n, pos, end))
+        return [ok(BytesV(d.base, z3.simplify(to_int_term(d.lo) + start), z3.simplify(to_int_term(d.lo) + end)), st)]
+
+    def m_bytesio_close(self, recv, h, args, kwargs, st, line):
+        h.meta['closed'] = True
+        return [ok(None, st)]
+
+    def m_bytesio_readable(self, recv, h, args, kwargs, st, line):
+        return [ok(True, st)]
+
+    m_bytesio_seekable = m_bytesio_readable
 
     # lock / condition / event / semaphore methods
     def m_lock_acquire(self, recv, h, args, kwargs, st, line):
